@@ -7,7 +7,7 @@ import z3
 
 from . import api, ops
 from . import ty as T
-from .core import PYOBJ, ContractMisfit, Outcome, State, Unsupported, Val, coerce, fresh, fresh_name, join_types, lift
+from .core import PYOBJ, ContractMisfit, Outcome, State, Unsupported, Val, coerce, fresh, fresh_name, join_types, lift, seq_nth
 from .exprs import BoundMethod, Closure, bool_val, z_and, z_implies, z_not, z_or
 from .ops import is_const, z3bool
 
@@ -139,7 +139,7 @@ class StmtMixin:
         t = v.ty
         if isinstance(t, T.List):
             s = lift(v)
-            return IterInfo("indexed", n=z3.Length(s), item=lambda i: Val(t.elem, s[i]), seqval=v)
+            return IterInfo("indexed", n=z3.Length(s), item=lambda i: Val(t.elem, seq_nth(s, i)), seqval=v)
         if t == T.STR:
             s = lift(v)
             return IterInfo("indexed", n=z3.Length(s), item=lambda i: Val(T.STR, z3.SubString(s, i, 1)), seqval=v)
@@ -149,6 +149,7 @@ class StmtMixin:
             d = t.sort()
             ks = d.keys(lift(v))
             dom = d.dom(lift(v))
+            models.dict_wf(st, t, lift(v))
             return IterInfo(
                 "indexed", n=z3.Length(ks), item=lambda i: Val(t.k, ks[i]),
                 facts=lambda i: [z3.Select(dom, ks[i])], seqval=Val(T.List(t.k), ks),
@@ -283,6 +284,8 @@ class StmtMixin:
             return Val(PYOBJ, None, out, True)
         if kind == "gen":
             return Val.obj(("genexp", node, st))
+        if isinstance(node, ast.GeneratorExp) and kind == "list":
+            pass
         # symbolic sources --------------------------------------------------------------
         if kind in ("set", "dict") or info.kind == "set":
             return self.array_comprehension(node, g, info, src, st, kind)
@@ -326,6 +329,8 @@ class StmtMixin:
         if not (not ke.is_py and z3.eq(lift(ke), x)):
             raise Unsupported("comprehension key/element must be the iteration variable itself", node)
         dom = z3.Lambda([x], z3.And(guard, *conds))
+        # emptiness of the comprehension, stated explicitly (saves the solver an extensionality argument)
+        st.assume((dom == z3.K(kelem.sort(), z3.BoolVal(False))) == z3.Not(z3.Exists([x], z3.And(guard, *conds))))
         if kind in ("set", "list", "gen"):
             if kind != "set":
                 raise Unsupported("list comprehension over a set", node)
